@@ -23,17 +23,18 @@ LEVEL_NOTE = ('Partial: for smear on even-sized axes the unpaired Nyquist row/co
               'interpolation of util.rescale is not modelled). Trusted: np.fft.fft2/ifft2 are the plain DFT pair with origin at index 0, np.fft.fftfreq follows its '
               'documented index map, np.sinc/np.exp/np.abs/np.meshgrid as named; rounding not modelled.')
 TECHNIQUE = 'Lean 4 proof (Finset sums, roots-of-unity orthogonality, periodic reindexing, sinc/exp) over an executable model defined from translator-regenerated kernels + differential correspondence'
-GEN = ['BlurWiring']
-OPS = ['C01', 'C05', 'C19']
+GEN = ['BlurWiring', 'Extent', 'FieldIdx', 'FieldMerge', 'FieldDispatch', 'NormalizePower', 'RescaleGrid']
+OPS = ['C01', 'C05', 'C19', 'C17']
 RULE = ('cases: non-negative images with rows, cols drawn independently from 1..8 (thorough 1..12; forced 1xn, nx1, even/odd, non-square), '
         'smooth-positive / sparse point-source / constant images; pixel with oversample 1..5, jitter with scale 0..1.5 px, smear with '
         'distance 0..4 px (tail to 8) and angle in [0,360) incl. 0/45/90, also angle=None under a seeded global generator; integer and fractional oversampling; default arguments; pixelate; extents also given in physical units with a pixel scale; the call is made on the caller\'s own array; circular shifts '
         'of either sign; zero extent. distinct = (kind, shape, parameters, roll); non-trivial = non-square or oversample ≠ 1 or '
-        'physical units (outside what the test-suite samples) A ≈5 % sample (search tier: a leading block of 220) comes from an extremes stream: pixel scales 1e-12 … 1e-8 and 1e3 … 1e9 with multi-pixel extents, int16/int32/uint8/uint16/uint32/int64 frames at the limits of their dtype (totals beyond 2³¹), image amplitudes 1e-100 … 1e9, extents 0 / 5e-324 / 1e-300 / 25–60 px, frames of 257–1024 samples along one axis (search only); all tolerances are relative to Σ img.')
+        'physical units (outside what the test-suite samples) A ≈5 % sample (search tier: a leading block of 220) comes from an extremes stream: pixel scales 1e-12 … 1e-8 and 1e3 … 1e9 with multi-pixel extents, int16/int32/uint8/uint16/uint32/int64 frames at the limits of their dtype (totals beyond 2³¹), image amplitudes 1e-100 … 1e9, extents 0 / 5e-324 / 1e-300 / 25–60 px, frames of 257–1024 samples along one axis (search only); all tolerances are relative to Σ img. About 5 % of jitter/smear cases use a negative pixel scale. pixelate cases are compared with the rescale contract evaluated on the model\'s pixel output at the C17 model\'s interpolation grid.')
 TRUSTED = ['np.fft.fft2 / ifft2 are the un-normalised DFT and its inverse with origin at index 0; np.fft.fftfreq(n) = [0,1,…,⌈n/2⌉-1,-⌊n/2⌋,…,-1]/n; '
            'np.sinc(x) = sin(πx)/(πx); np.meshgrid(x, y) puts x along columns (all modelled in Model/Blur.lean, observed through the correspondence)']
 UNPROVEN = ['pixelate: the call wiring (pixel, then rescale by 1/oversample, order 3, nearest, unitary) and the output shape are regenerated and proved '
-            '(pixelate_wiring); the spline interpolation of util.rescale and hence the values / preserved total are evaluated by the oracle only',
+            '(pixelate_wiring); its values are compared with the rescale contract (scipy order-3 spline, unitary factor, order-1 mask) evaluated on the '
+            'MODEL\'s pixel output at the grid of the C17 model (Gen.rescaleCoordY/X); the spline itself is trusted, no theorem about the values or the total',
             'smear(angle=None): the branch is regenerated and modelled (smearNone, compared with the implementation under a seeded global generator; '
             'smear_none_is_smear_at_drawn_angle); that exactly one uniform variate of the global generator is consumed is oracle only',
             'smear on even-sized axes: the deviation from the Hermitian-part convolution is bounded by the Nyquist row/column for the un-normalised and '
@@ -90,6 +91,7 @@ def _case(rng, kmax):
         c['extent_px'] = float(rng.uniform(0, 8.0 if big else 4.0)) / c['oversample']
         c['angle'] = [0.0, 90.0, 45.0, 180.0][int(rng.integers(0, 4))] if rng.integers(0, 3) == 0 else float(rng.uniform(0, 360))
     if kind != 'pixel': c['extent'] = c['extent_px'] * c['pixelscale']
+    if kind != 'pixel' and rng.integers(0, 20) == 0: c['pixelscale'] = -c['pixelscale']      # a negative unit: the kernels are even in extent/pixelscale
     # default arguments (pixelscale=1, oversample=1 omitted from the call) and extra probes
     if rng.integers(0, 6) == 0:
         c['oversample'] = 1; c['pixelscale'] = 1.0; c['defaults'] = True
@@ -155,7 +157,8 @@ def tags(c):
     if c.get('defaults'): t.append('default-arguments')
     if c.get('layout', 'C') != 'C': t.append('layout:' + c['layout'])
     if c.get('dtype'): t.append('dtype:' + c['dtype'])
-    if c['pixelscale'] < 1e-7: t.append('nano-scale-units')
+    if c['pixelscale'] < 0: t.append('negative-pixelscale')
+    if 0 < c['pixelscale'] < 1e-7: t.append('nano-scale-units')
     if c['pixelscale'] > 1e2: t.append('huge-units')
     if c.get('pixelate'): t.append('pixelate')
     if 'random_angle_seed' in c: t.append('smear(angle=None)')
@@ -241,6 +244,12 @@ def requests(c, io):
          'pixelscale': fbits(float(c['pixelscale'])), 'oversample': fbits(float(c['oversample']))}
     if c['kind'] != 'pixel': r['extent'] = fbits(c['extent'])
     if c['kind'] == 'smear': r['angle'] = fbits(c['angle'])
+    if c.get('pixelate'):
+        # pixelate = rescale(pixel(img, os), 1/os): the interpolation grid comes from the C17 model (Gen.rescaleCoordY/X, exact rationals)
+        from fractions import Fraction
+        rat = lambda x: [Fraction(float(x)).numerator, Fraction(float(x)).denominator]
+        sc = 1 / c['oversample']
+        return [r, {'op': 'rs.coords', 'shape': c['shape'], 'scale': rat(sc), 'prod': [rat(c['shape'][0] * sc), rat(c['shape'][1] * sc)]}]
     if 'random_angle_seed' in c:
         # the model of the angle=None branch, fed with the uniform [0, 1) variate the seeded global generator yields first
         u = float(np.random.RandomState(c['random_angle_seed']).random_sample())
@@ -259,6 +268,22 @@ def compare(c, io, mo):
     tol = (3e-6 if c.get('layout') == 'float32' else TOL) * max(float(np.sum(np.abs(_image(c)))), 1e-300)      # float32 frames: single-precision sums
     d = float(np.max(np.abs(got - want)))
     if not d <= tol: return f'max |impl - model| = {d:.3e} > {tol:.1e}'
+    if c.get('pixelate') and len(mo) > 1:
+        g = mo[1]
+        if not g.get('ok'): return f"model refused the rescale grid: {g.get('err')}"
+        if 'exc' in io['pixelate']: return f"pixelate raised {io['pixelate']['exc']}; the model answered"
+        from scipy.ndimage import map_coordinates
+        ys = np.array([a / b for a, b in g['y']], dtype=float); xs = np.array([a / b for a, b in g['x']], dtype=float)
+        xx, yy = np.meshgrid(xs, ys)
+        # contract of util.rescale on the MODEL's pixel output and the model's grid: order-3 spline ('nearest'), unitary factor, order-1 mask
+        mk = map_coordinates((want != 0).astype(float), [yy, xx], order=1, mode='nearest'); mk[mk < np.finfo(float).eps] = 0
+        ref = map_coordinates(want, [yy, xx], order=3, mode='nearest')
+        ref = ref * (want.sum() / ref.sum()) * mk
+        gotp = _arr(io['pixelate'])
+        if gotp.shape != ref.shape: return f'pixelate: shape impl {gotp.shape}, model grid {ref.shape}'
+        d = float(np.max(np.abs(gotp - ref)))
+        if not d <= 10 * tol: return f'pixelate: max |impl - rescale contract on the model| = {d:.3e} > {10 * tol:.1e}'
+        return None
     if len(mo) > 1:
         if not mo[1].get('ok'): return f"model refused smear(angle=None): {mo[1].get('err')}"
         if 'exc' in io['rand1']: return f"smear(angle=None) raised {io['rand1']['exc']}; the model answered"
